@@ -642,6 +642,67 @@ func verifExpiryPassVersusWrite(tag string) {
 	vr.Reach("end")
 }
 
+// ---- a reader that meets an expired entry while another client writes the key ----
+//
+// The key holds a value whose deadline has passed but which has not been collected. One client runs
+// a command that reads it (and so triggers its lazy removal, wherever the implementation does that:
+// inline or in a goroutine it starts), another client writes the key again - with or without a new
+// deadline. Whatever the interleaving (including when the goroutines started by the reader run), the
+// replies and the final entry are those of one of the two serial orders: the acknowledged write is
+// not lost to the removal of the *old* entry.
+func Verif_C05_ReadOfExpiredVersusWrite() {
+	readers := [][]string{{"MGET", "k"}, {"GET", "k"}, {"INCR", "k"}, {"STRLEN", "k"}, {"EXISTS", "k"}, {"TTL", "k"}, {"SISMEMBER", "k", "m"}, {"LLEN", "k"}}
+	writers := [][]string{{"SET", "k", "new", "EX", "100"}, {"SET", "k", "new"}, {"SET", "k", "7", "PXAT", "1700003600000"}, {"MSET", "k", "new"}}
+	rd := readers[vr.Choose("reader", len(readers))]
+	wr := writers[vr.Choose("writer", len(writers))]
+	vr.PreemptAtLocks(c05Bound())
+	t0 := time.UnixMilli(1_700_000_000_000)
+	mk := func() *SugarDB {
+		s := verifServer()
+		s.clock = verifClock{now: &t0}
+		verifPreset(s, 0, "k", "old")
+		verifPresetExpiry(s, 0, "k", t0.Add(-time.Second)) // expired, not yet removed
+		return s
+	}
+	// the two serial orders
+	sa := mk()
+	r1a := c05Run(sa, rd...)
+	r2a := c05Run(sa, wr...)
+	vr.Quiesce()
+	da := c09Digest(sa, 0, "k")
+	sb := mk()
+	r2b := c05Run(sb, wr...)
+	r1b := c05Run(sb, rd...)
+	vr.Quiesce()
+	db := c09Digest(sb, 0, "k")
+	crashed, r1, r2, dc := "", "", "", ""
+	for round := 0; round < vr.Rounds(600); round++ {
+		s := mk()
+		func() {
+			defer func() {
+				if x := recover(); x != nil {
+					crashed = fmt.Sprint(x)
+				}
+			}()
+			vr.Go(func() { r2 = c05Run(s, wr...) })
+			r1 = c05Run(s, rd...)
+			vr.Join()
+			vr.Quiesce()
+		}()
+		dc = c09Digest(s, 0, "k")
+		if crashed != "" || !((r1 == r1a && r2 == r2a && dc == da) || (r1 == r1b && r2 == r2b && dc == db)) {
+			break
+		}
+	}
+	vr.Assert(!strings.Contains(crashed, "deadlock"), "C05.expired_read_vs_write.nodeadlock")
+	if crashed != "" {
+		vr.Reach("end")
+		return
+	}
+	vr.Assert((r1 == r1a && r2 == r2a && dc == da) || (r1 == r1b && r2 == r2b && dc == db), "C05.expired_read_vs_write.equals_some_serial_order")
+	vr.Reach("end")
+}
+
 // ---- commands of clients on different databases ----
 //
 // A client on database 1 runs a read-then-write command while a client on database 0 runs a command
